@@ -45,7 +45,7 @@ def crc_contract(vc):
                 b = data[i]
                 if not isinstance(b, int):
                     import z3
-                    b = core.SBV(z3.Int2BV(core.toint(b), core.BVW))
+                    b = core.byte_bv(core.toint(b))
                 cur = crc_spec.step(cur, b)
             return cur
         return vc.uf_int("CRC", (data, start_value), 0, 65535)
